@@ -71,7 +71,7 @@ def daddr(rng, base):
 
 
 def gen(rng, n):
-    kind = rng.choice(["own", "user"])
+    kind = rng.choice(["own", "user", "capi"])   # capi: the same calls through the C binding
     seed = "" if rng.chance(1, 4) else " %x" % rng.below(1 << 20)
     s = ["bus new %s%s" % (kind, seed)]
     base = 0x8000
